@@ -64,11 +64,13 @@ def gen_script(rng, max_ops, profile):
     st = State()
     lines.append('update')
     njobs = 0
+    kept_jobs = []
     for js in profile.get('jobs', []):
         reqs = [(p, fl) for p, fl in js['reqs'] if p in pals]
         chk = [p for p in js.get('check', []) if p in pals]
         if not reqs:
             continue
+        kept_jobs.append(dict(reqs=reqs, chk=chk))
         lines.append('mkjob %d %s%s' % (3 if js.get('xodd') else 1, ' '.join('%d:%d' % r for r in reqs), (' c ' + ' '.join(map(str, chk))) if chk else ''))
         njobs += 1
     depth = 0
@@ -562,6 +564,30 @@ def gen_script(rng, max_ops, profile):
             if depth == 0 and all(p_ in pals for p_ in (0, 1, 2, 4)):
                 mode = rng.below(2)
                 lines.append('runtyped %d %d%s' % (rng.below(4), mode, (' %d' % rng.range(1, 6)) if mode and rng.chance(1, 2) else ''))
+        elif choice == 'depkeep':
+            # one pack assigns a dependent with a value, gives the entity the master, and removes the dependent again: the removal has no
+            # effect while the master is present, so the dependent stays WITH the assigned value
+            cands_ = [(m_, d_) for m_, ds_ in deps.items() for d_ in sorted(ds_) if is_static(d_) and d_ != 6 and m_ not in deps.get(d_, set())]
+            hs_ = [h for h in live_handles() if h not in st.marked and not st.shared.get(h)]
+            if depth or not cands_ or not hs_:
+                continue
+            m_, d_ = rng.pick(cands_)
+            hs_ = [h for h in hs_ if m_ not in st.comps[h] and d_ not in st.comps[h]]
+            if not hs_:
+                continue
+            h = rng.pick(hs_)
+            lines += ['lock', 'assign 0 #%d %d %d' % (h, d_, value()), '%s 0 #%d %d -' % ('assign' if is_static(m_) else 'assignid', h, m_), 'remove 0 #%d %d' % (h, d_), 'unlock']
+            st.comps[h] = closure(set(st.comps[h]) | {m_, d_})
+        elif choice == 'jobedit':
+            # one job object is described anew between runs (requests dropped, reordered, made optional): jobs without version filter only
+            unf_ = [(j_, js_) for j_, js_ in enumerate(kept_jobs) if not js_['chk']]
+            if depth == 0 and unf_:
+                j_, js_ = rng.pick(unf_)
+                reqs_ = [r_ for r_ in js_['reqs'] if rng.chance(2, 3)] or [js_['reqs'][0]]
+                if all(fl_ & 2 for p_, fl_ in reqs_):
+                    reqs_[0] = (reqs_[0][0], reqs_[0][1] & 1)
+                lines.append('jobedit %d %s' % (j_, ' '.join('%d:%d' % r_ for r_ in reqs_)))
+                lines.append('runjob %d %d' % (j_, rng.below(2)))
         elif choice == 'runjob':
             if depth == 0 and njobs:
                 mode = rng.below(2)
@@ -727,8 +753,9 @@ def profile(name):
             p['jobs'] = [{'reqs': [(0, 1)], 'check': []}, {'reqs': [(0, 0), (1, 3)], 'check': []}, {'reqs': [(0, 1), (2, 1)], 'check': []},
                          {'reqs': [(0, 1)], 'check': [0]}, {'reqs': [(1, 0), (0, 2)], 'check': [1]}]
         p['weights'] = {'create': 26, 'destroynow': 9, 'destroy': 3, 'assign': 8, 'remove': 6, 'set': 12, 'get': 6,
-                        'clone': 2, 'update': 6, 'cleararch': 1, 'lock': 0, 'unlock': 0, 'runjob': 22, 'burst': 0 if name == 'C04' else 7, 'bulk': 0 if name == 'C04' else 2, 'sparse': 3, 'runtyped': 8, 'jobdo': 4, 'lockedrun': 0 if name == 'C04' else 4}
+                        'clone': 2, 'update': 6, 'cleararch': 1, 'lock': 0, 'unlock': 0, 'runjob': 22, 'burst': 0 if name == 'C04' else 7, 'bulk': 0 if name == 'C04' else 2, 'sparse': 3, 'runtyped': 8, 'jobdo': 4, 'lockedrun': 0 if name == 'C04' else 4, 'jobedit': 5 if name == 'C04' else 0}
     elif name == 'C13':
+        p['weights'].update({'depkeep': 5})
         p['deps'] = 100
         p['pals'] = [0, 1, 2, 3, 5, 8, 9]
         p['dynflags'] = [32, 31, 63, 0]
